@@ -31,7 +31,102 @@ def _corpus_shard(srcs):
     return viols, {"corpus_programs": n, "corpus_rqs": ok, "corpus_kinds": kinds}
 
 
+def feature_programs():
+    """Language features the relational generator does not write: inline sub-pipelines nested two and three levels deep
+    (the middle relation passing the inner columns on without naming them), functions over relations (parameter
+    used once / twice / as join or append operand), scalar lets used in several pipelines, loops, set operations,
+    let readers, and the feature programs of C07 / G-feat.  -> [(family, source)]"""
+    from . import c07
+    from ..gen import gfeat
+    out = []
+    inner = {"derive": "from v | derive {w = c * 2}", "plain": "from v", "select": "from v | select {b, c, w = c + 1}", "agg": "from v | group b (aggregate {w = sum c})",
+             "take": "from v | sort c | take 5 | derive {w = c}"}
+    mids = {"filter": "filter u.d > 0", "sort": "sort u.d", "take": "take 10", "none": "", "join": "join x (u.a == x.a)", "derive": "derive {e = u.d + 1}",
+            "select_all": "select {u.a, u.b, u.d, w}", "sort_take": "sort {-u.d} | take 3"}
+    outers = {"filter_w": "filter w > 10", "select_w": "select {t.a, w}", "wild": "", "sort_w": "sort w | take 2", "derive_w": "derive {q = w + 1} | filter q > 0",
+              "group_w": "group t.a (aggregate {m = max w})", "window_w": "derive {r = rank w}"}
+    for side in ("", "side:left "):
+        for ik, isrc in inner.items():
+            for mk, m in mids.items():
+                for ok_, o in outers.items():
+                    if side and (ik not in ("derive", "agg") or mk in ("derive", "select_all")):
+                        continue
+                    mid = "from u | join (%s) (u.b == v.b)%s" % (isrc, (" | " + m) if m else "")
+                    out.append(("nested2:%s:%s:%s" % (ik, mk, ok_), "from t | join %s(%s) (t.a == u.a)%s" % (side, mid, (" | " + o) if o else "")))
+    for ik, isrc in inner.items():
+        for ok_, o in outers.items():
+            lvl3 = "from y | join (from u | join (%s) (u.b == v.b) | filter u.d > 0) (y.a == u.a) | sort y.a" % isrc
+            out.append(("nested3:%s:%s" % (ik, ok_), "from t | join (%s) (t.a == y.a)%s" % (lvl3, (" | " + o) if o else "")))
+            out.append(("nested_append:%s:%s" % (ik, ok_), "from t | select {b, c, w = a} | append (from u | select {b, c, w = d} | append (%s | select {b, c, w})) | %s" % (isrc if ik != "plain" else "from v | derive {w = 0}", (o or "take 5").replace("t.a", "b"))))
+    rel_funcs = [
+        ("once", "let f = rel -> (rel | filter a > 1 | select {a, b})\nfrom t | f"),
+        ("once_arg", "let f = n rel -> (rel | take n)\nfrom t | f 3 | filter a > 0"),
+        ("once_paren", "let f = rel -> (rel | derive {z = a + 1})\nf (from t | select {a, b}) | filter z > 1"),
+        ("twice_join", "let dup = rel -> (rel | join rel (==a))\nfrom t | select {a, b} | dup"),
+        ("twice_join_alias", "let dup = rel -> (from rel | join r2 = rel (==a))\ndup (from t | select {a, b})"),
+        ("twice_append", "let twice = rel -> (rel | append rel)\nfrom t | select {a, b} | twice"),
+        ("twice_table", "let dup = rel -> (rel | join rel (==a))\ndup t"),
+        ("two_params", "let j = l r -> (l | join r (==a))\nj (from t | select {a, b}) (from u | select {a, d})"),
+        ("two_params_same", "let j = l r -> (l | join r (==a))\nlet s = (from t | select {a, b})\nj s s"),
+        ("in_let", "let f = rel -> (rel | sort a | take 2)\nlet top = (from t | f)\nfrom top | join u (==a) | f"),
+        ("nested_call", "let f = rel -> (rel | filter a > 1)\nlet g = rel -> (rel | f | select {a})\nfrom t | g | join (from u | g) (==a)"),
+    ]
+    out += [("relfunc:" + n, src) for n, src in rel_funcs]
+    scalars = [
+        ("both", "let k = 5\nfrom t | derive {x = a + k} | join (from u | derive {y = b + k}) (==id)"),
+        ("filter_both", "let k = 5\nfrom t | filter a > k | join (from u | filter b > k) (==id) | select {t.a, u.b}"),
+        ("expr", "let k = 2 + 3\nlet m = k * 2\nfrom t | derive {x = a + m} | append (from u | select {a, x = k})"),
+        ("in_group", "let k = 5\nfrom t | group a (aggregate {s = sum b + k}) | join (from u | group a (aggregate {c = count this + k})) (==a)"),
+        ("in_window", "let k = 1\nfrom t | sort a | derive {l = lag k b} | join (from u | sort a | derive {m = lead k d}) (==a)"),
+        ("tuple", "let p = {x = 1, y = 2}\nfrom t | derive {z = a + p.x} | join (from u | derive {q = d + p.y}) (==a)"),
+    ]
+    out += [("scalar_let:" + n, src) for n, src in scalars]
+    out += [("c07_featdb", src) for src in c07.FEATURES_DB]
+    out += [("gfeat", src) for _, src in gfeat.programs() if len(src) < 3000]
+    return out
+
+
+def _feature_shard(items):
+    w = core.Worker()
+    viols, seen = [], set()
+    obs = {"feature_programs": 0, "feature_rqs": 0, "feature_families": {}, "feature_kinds": {}}
+    for fam, src in items:
+        r = w.call({"op": "compile", "src": src, "rq": True})
+        obs["feature_programs"] += 1
+        rc = r.get("rqcheck")
+        if not rc:
+            continue
+        obs["feature_rqs"] += 1
+        f0 = fam.split(":")[0]
+        obs["feature_families"][f0] = obs["feature_families"].get(f0, 0) + 1
+        for k, v in rc["kinds"].items():
+            obs["feature_kinds"][k] = obs["feature_kinds"].get(k, 0) + v
+        for v in rc["violations"]:
+            key = (v.split(":")[0], fam if f0 in ("relfunc", "scalar_let") else f0)
+            viols.append({"property": "C16", "symptom": "rq:" + v.split(":")[0], "shape": "feature:" + (fam if f0 in ("relfunc", "scalar_let") else fam.rsplit(":", 1)[0] if ":" in fam else fam),
+                          "witness": {"src": src, "family": fam} if key not in seen else None, "detail": v})
+            seen.add(key)
+    w.close()
+    return viols, obs
+
+
 def run(tier, seed):
+    run = run_(tier, seed)
+    N = core.NCPU
+    feats = feature_programs()
+    res = core.run_shards(_feature_shard, [dict(items=feats[i::N]) for i in range(N)])
+    tot = {}
+    for v, o in res:
+        run.extend(v)
+        core.merge_counts(tot, o)
+    run.coverage.update(tot)
+    run.coverage["evaluations"] = run.coverage.get("evaluations", 0) + tot.get("feature_programs", 0)
+    run.coverage["rule"] += ("; feature phase: inline sub-pipelines nested 2-3 levels (5 inner x 8 middle x 7 outer uses), functions over relations, "
+                             "scalar lets shared between pipelines, loops, set operations, let readers, G-feat programs")
+    return run
+
+
+def run_(tier, seed):
     run = c01.explore("C16", PROPS, [("core", 0.4), ("window", 0.3), ("project", 0.3), ("shared", 0.3)], tier, seed, 900, 40000, ASSUMPTIONS)
     srcs = corpus.sources()
     N = core.NCPU
@@ -51,6 +146,9 @@ def replay(case):
         w = core.Worker()
         r = w.call({"op": "compile", "src": case["src"], "rq": True})
         w.close()
+        if case.get("family"):
+            vs, _ = _feature_shard([(case["family"], case["src"])])
+            return vs
         return [{"property": "C16", "symptom": "rq:" + v.split(":")[0], "shape": "corpus", "witness": case, "detail": v}
                 for v in r.get("rqcheck", {}).get("violations", [])]
     return relcheck.replay_case(case, PROPS)
